@@ -16,7 +16,7 @@ from .common import Out, drop_each, with_, REAL_ALL, STUB_ALL
 ID = "C10"
 TIERS = {"quick": {"n": 2600, "chunk": 40}, "thorough": {"n": 60000, "chunk": 150, "wall_cap": 3300}}
 RULE = (
-    "each scenario is a seeded history of 2-7 runs (1 in 10: 8-20; 1 in 25: a burst of 12-17 runs of one group inside one second followed by a later run; 2 in 25: two interleaved callers - a generator run obtained (and 0-3 lines pulled), another whole run performed - on the same instance too when it is of the other group -, then the generator drained) drawn from {g1,g2} x {new,reused CsvPaths} x 7 run forms, the simulated clock set before each run by a profile "
+    "each scenario is a seeded history of 2-7 runs (1 in 10: 8-20; 1 in 25: a burst of 12-17 runs of one group inside one second followed by a later run; 2 in 25: two interleaved callers - a generator run obtained (and 0-3 lines pulled), another whole run performed - on the same instance too when it is of the other group -, then the generator drained) drawn from {g1,g2} x {new, reused, the other of two alternating long-lived CsvPaths} x 7 run forms, the simulated clock set before each run by a profile "
     "(same second, +1s, +minutes, to 12:59:5x/13:00:0x, to 23:59:5x/00:00:0x, +12h exactly, backward step), 0, 1 ms or 400 ms clock advance per clock read (a run can straddle second boundaries), listdir order permuted; invariants are checked after every run. "
     "Non-trivial = at least two runs of one group, or a reused instance; distinct = distinct sequences of step classes (group, new/reused, serial/by-line, collecting?, clock profile)."
 )
@@ -69,7 +69,7 @@ def generate_burst(rng):
             {
                 "at": seams.iso(t),
                 "profile": "start" if s == 0 else "same",
-                "inst": "new" if (s == 0 or rng.random() < 0.5) else "reused",
+                "inst": "new" if s == 0 else rng.choice(["new", "reused", "swap", "swap"]),
                 "group": g if rng.random() < 0.9 else ("g2" if g == "g1" else "g1"),
                 "method": rng.choice(["collect_paths", "fast_forward_paths", "collect_by_line", "next_paths_collect"]),
             }
@@ -131,7 +131,8 @@ def generate(rng, i, tier):
             {
                 "at": seams.iso(t),
                 "profile": prof,
-                "inst": "new" if (s == 0 or rng.random() >= p_reuse) else "reused",
+                # "swap": the run goes through the OTHER of two long-lived instances that alternate over the same archive
+                "inst": "new" if (s == 0 or rng.random() >= p_reuse) else rng.choice(["reused", "reused", "swap"]),
                 "group": rng.choice(["g1", "g2"]),
                 "method": rng.choice(meths),
             }
@@ -184,7 +185,7 @@ def reductions(sc):
             c = with_(sc)
             del c["steps"][j]["unfinished_before"]
             yield c
-        if st["inst"] == "reused" and not st.get("unfinished_before"):
+        if st["inst"] in ("reused", "swap") and not st.get("unfinished_before"):
             c = with_(sc)
             c["steps"][j]["inst"] = "new"
             yield c
@@ -301,6 +302,7 @@ def execute(sc):
             cs.file_manager.add_named_file(name="f", path="src/f.csv")
             for g, ps in GROUPS.items():
                 cs.paths_manager.add_named_paths(name=g, paths=ps)
+        cs_alt = None  # the other of two long-lived instances (see "swap")
         runs = []  # dicts: group, invoke, ret, dir, data(bool), epoch, idx
         abandoned = set()  # run directories of unfinished runs: their spoolers are flushed whenever the garbage collector gets to them
         epoch = 0
@@ -321,6 +323,10 @@ def execute(sc):
                 cs = ops.new_csvpaths()
                 if idx:
                     out.fault("restart")
+            elif st["inst"] == "swap":
+                cs, cs_alt = (cs_alt if cs_alt is not None else ops.new_csvpaths()), cs
+                out.fault("instance_swap")
+                out.probe("two long-lived instances alternating over one archive")
             else:
                 out.fault("instance_reuse")
             g, meth = st["group"], st["method"]
@@ -506,7 +512,7 @@ def execute(sc):
             out.log(idx, list(cls), d, sorted(p for p in after if p not in before and not any(p.startswith(a + os.sep) for a in abandoned)), len(out.violations), runs[-1]["dir"])
             if out.violations:
                 break
-        for pr in ("run right after an unfinished run on the same instance", "12 or more runs of one group in one second", "group addressed through a member reference", "two runs in one second", "two runs in one second, reused instance", "12:59 -> 13:00", "across midnight", "exactly 12h apart", "ordered pair compared", ":last resolved", ":first resolved", "':last' used as the input of another group's run in the second of the referenced run"):
+        for pr in ("run right after an unfinished run on the same instance", "12 or more runs of one group in one second", "group addressed through a member reference", "two runs in one second", "two runs in one second, reused instance", "12:59 -> 13:00", "across midnight", "exactly 12h apart", "ordered pair compared", ":last resolved", ":first resolved", "two long-lived instances alternating over one archive", "':last' used as the input of another group's run in the second of the referenced run"):
             out.probe(pr, False)
         out.nontrivial = len([r for r in runs if not r.get("abandoned")]) >= 2
         out.extra["step_class_pairs"] = pairs
